@@ -139,6 +139,11 @@ func cmdStopFlush(f hx.Flags, r *hx.Result) {
 				}
 				blocked := false
 				ret, pv := hx.Within(30*time.Second, func() {
+					if pol == "Block" || cnt < 50 {
+						// a zero-length raw write is an item like any other (and must not be mistaken for anything else)
+						_, _ = h.Write([]byte{})
+						_, _ = h.Write(nil)
+					}
 					for i := 1; i <= cnt; i++ {
 						switch i % 3 {
 						case 0:
@@ -252,7 +257,10 @@ func cmdStopFlush(f hx.Flags, r *hx.Result) {
 			return
 		}
 		app.Write([]byte("one\n"))
-		if p := hx.Catch(func() { app.Stop(); app.Stop() }); p != nil {
+		if ret, p := hx.Within(8*time.Second, func() { app.Stop(); app.Stop() }); !ret {
+			r.Violate("blocked:double-stop:"+mk, desc, "stopping the %s appender twice did not return within 8 s", mk)
+			continue
+		} else if p != nil {
 			r.Violate("double-stop-panic:"+mk, desc, "stopping the %s appender twice panicked: %v", mk, p)
 		}
 		if fds := openUnder(dir); len(fds) > 0 {
